@@ -25,7 +25,6 @@ import (
 	"sort"
 	"strings"
 	"sync"
-	"time"
 
 	"verifharness/internal/hx"
 
@@ -704,9 +703,9 @@ func init() {
 		fs := flag.NewFlagSet("rc-replay", flag.ExitOnError)
 		neg := fs.Bool("negative", false, "corrupt one expected value per behaviour (negative control)")
 		workers := fs.Int("workers", 4, "behaviours executed in parallel")
-		delay := fs.Int("startdelay", 3, "milliseconds opening a capture source takes")
+		keep := fs.Bool("keeploggers", false, "call Update with a background context (keeps the manager's error-logging goroutines: race probe)")
 		fs.Parse(args)
-		startDelay = time.Duration(*delay) * time.Millisecond
+		keepErrorLoggers = *keep
 		Replay(os.Stdin, os.Stdout, *neg, *workers)
 	})
 	hx.Register("rc-drive", func(args []string) {
@@ -716,9 +715,7 @@ func init() {
 		maxLen := fs.Int("maxlen", 2, "maximum history length")
 		maxHist := fs.Int("histories", 40, "maximum number of histories")
 		workers := fs.Int("workers", 4, "managers driven in parallel")
-		delay := fs.Int("startdelay", 3, "milliseconds opening a capture source takes")
 		fs.Parse(args)
-		startDelay = time.Duration(*delay) * time.Millisecond
 		Drive(os.Stdin, os.Stdout, *seed, *managers, *maxLen, *maxHist, *workers)
 	})
 }
